@@ -101,5 +101,7 @@ def make_replayer(ctx):
             o.detail += "; replayed natively: real partition on %s gives %s, documented %s" % (
                 json.dumps(devs[0]["scenario"])[:160], devs[0]["real"], devs[0]["documented"])
         else:
-            o.verdict, o.detail = "inconclusive", "counterexample did not reproduce with the real partition on real files"
+            # left as an unconfirmed counterexample: the report's battery (if any) may still confirm it, otherwise Report.add turns
+            # it into `inconclusive`
+            o.detail += "; the real partition on real files (grid of %d scenarios) shows no deviation" % (1 + len(grid))
     return rp
